@@ -62,6 +62,9 @@ fn check_model(p: &[MeanVari], rep: &Report, ties: &AtomicU64, floors: &AtomicU6
         rep.eval(1);
         rep.cmp(3);
         let tot: usize = d.iter().sum();
+        if tot % 16 == 3 {
+            rep.outcome(fnv(format!("{:?}", d).as_bytes()));
+        }
         let x = f1 as f64 / s;
         let tie = is_tie(x);
         if tie {
